@@ -340,7 +340,7 @@ Lemma MInv_step : forall cs0 cs s i c, MInv cs0 cs s -> nth_error cs i = Some c 
 Proof.
   intros cs0 cs s i c (a & go & gi & HS & HF) Hi.
   destruct (Forall2_nth _ _ _ _ _ HF Hi) as (c0 & Hi0 & Hc).
-  destruct c0 as [b0|r0|q0|n0], c as [b|r|q|n]; cbn [CoInv] in Hc; try contradiction.
+  destruct c0 as [b0|r0|q0|n0|l0], c as [b|r|q|n|lq]; cbn [CoInv] in Hc; try contradiction.
   - (* a batch moves *)
     rewrite co_step_batch. cbn [fst snd].
     destruct (bstep_ext b s a go gi HS Hc) as (a' & go' & gi' & HS' & HB' & Hm & Hx).
@@ -370,10 +370,11 @@ Lemma MInv_init : forall cs0 s0 a0, R s0 a0 -> Forall co_start_ok cs0 -> MInv cs
 Proof.
   intros cs0 s0 a0 HR Hok. exists a0, (a_links a0), (a_links a0). split; [apply SInv_R; exact HR|].
   induction Hok as [|c0 l Hc Hl IH]; constructor; [|exact IH].
-  destruct c0 as [b|r|q|n]; cbn [co_start_ok CoInv] in *.
+  destruct c0 as [b|r|q|n|lq]; cbn [co_start_ok CoInv] in *.
   - destruct Hc as (d & -> & Hd). apply BInv_start. exact Hd.
   - contradiction.
   - destruct Hc as (ps & ->). apply QInv_start.
+  - contradiction.
   - contradiction.
 Qed.
 
